@@ -87,7 +87,14 @@ def fragment_header(state):
     else:
         # (14.2) Appart from when fragment_slice_count==0, the picture number
         # must not change
-        if state["_last_picture_number"] != state["picture_number"]:
+        #
+        # NB: "_last_picture_number" is absent if no picture or fragment
+        # preceded this fragment in the sequence. In that case (as whenever no
+        # fragmented picture is in progress) the slice count check below fails.
+        if (
+            "_last_picture_number" in state
+            and state["_last_picture_number"] != state["picture_number"]
+        ):
             raise PictureNumberChangedMidFragmentedPicture(
                 state["_last_picture_number_offset"],
                 state["_last_picture_number"],
@@ -99,10 +106,13 @@ def fragment_header(state):
         #
         # (14.2) A fragmented picture must not contain any extra slices
         if state["fragment_slice_count"] > state["_fragment_slices_remaining"]:
+            # NB: No fragmented picture may have been started in this sequence
+            # at all (i.e. _fragment_slices_remaining is still 0 and the
+            # following state entries have never been set)
             raise TooManySlicesInFragmentedPicture(
-                state["_picture_initial_fragment_offset"],
+                state.get("_picture_initial_fragment_offset", fragment_offset),
                 fragment_offset,
-                state["fragment_slices_received"],
+                state.get("fragment_slices_received", 0),
                 state["_fragment_slices_remaining"],
                 state["fragment_slice_count"],
             )
